@@ -107,6 +107,7 @@ package xmss
 //@   exit[XF] forall d :: 0 <= d && d < 32 ==> key[d] == old(prfAddr(hashFunction, pubSeed, addr, 0))[d] || hashFunction > 2
 //@   exit[XF] forall d :: 0 <= d && d < 32 ==> buf[d] == spec.xorArr(spec.sub(old(in), 32), old(prfAddr(hashFunction, pubSeed, addr, 1)), 32)[d] || hashFunction > 2
 //@   ensures[XF] hashFunction <= 2 ==> forall q :: 0 <= q && q < len(out) && q < 32 ==> out[q] == spec.xhash(hashFunction, spec.corein(0, old(prfAddr(hashFunction, pubSeed, addr, 0)), 32, spec.xorArr(spec.sub(old(in), 32), old(prfAddr(hashFunction, pubSeed, addr, 1)), 32), 32), 96, q)
+//@   ensures[XF] hashFunction <= 2 ==> forall q :: 0 <= q && q < len(out) && q < 32 ==> out[q] == spec.randF(hashFunction, spec.sub(pubSeed, 32), arr(old(addr)), spec.sub(old(in), 32))[q]
 //@   assigns out, *addr
 //@   loop 1 invariant 0 <= i && i <= n
 //@   loop 1 invariant[XF] forall d :: 0 <= d && d < i ==> buf[d] == spec.bxor(in[d], bitMask[d])
@@ -120,13 +121,23 @@ package xmss
 
 // ---- WOTS / L-tree / authentication path (verification side) ----
 
+//@ lemma xmss.L_addrBytes_cong[XF] : forall A1:arr, A2:arr :: (forall k_ :: 0 <= k_ && k_ < 8 ==> A1[k_] == A2[k_]) ==> spec.addrBytes(A1) == spec.addrBytes(A2)
+//@ lemma xmss.L_xorArr_cong32[XF] : forall X1:arr, X2:arr, M:arr :: (forall d_ :: 0 <= d_ && d_ < 32 ==> X1[d_] == X2[d_]) ==> spec.xorArr(X1, M, 32) == spec.xorArr(X2, M, 32)
+//@ lemma xmss.L_randF_cong[XF] uses xmss.L_addrBytes_cong,xmss.L_xorArr_cong32 : forall hf, PS:arr, A1:arr, A2:arr, X1:arr, X2:arr :: (forall k_ :: 0 <= k_ && k_ < 7 ==> A1[k_] == A2[k_]) && (forall d_ :: 0 <= d_ && d_ < 32 ==> X1[d_] == X2[d_]) ==> spec.randF(hf, PS, A1, X1) == spec.randF(hf, PS, A2, X2)
 //@ func genChain
-//@   alias in out
+//@   alias in out same
+//@   use xmss.L_randF_cong
+//@   hide spec.randF
 //@   requires wotsOK(params) && len(out) >= 32 && len(in) >= 32 && len(pubSeed) >= 32
+//@   requires[XF] start + steps <= params.w - 1
 //@   ensures forall k_ :: 0 <= k_ && k_ < 6 ==> addr[k_] == old(addr[k_])
+//@   ensures[XF] hashFunction <= 2 ==> forall q :: 0 <= q && q < 32 ==> out[q] == spec.chain(hashFunction, spec.sub(pubSeed, 32), arr(old(addr)), spec.sub(old(in), 32), start, steps)[q]
 //@   assigns out, *addr
 //@   loop 1 invariant 0 <= j && j <= params.n
+//@   loop 1 invariant[XF] (forall q :: 0 <= q && q < j ==> out[q] == old(in[q])) && forall q :: 0 <= q && q < 32 ==> in[q] == old(in[q])
 //@   loop 2 invariant start <= i && (i <= params.w || i == start) && forall k_ :: 0 <= k_ && k_ < 6 ==> addr[k_] == old(addr[k_])
+//@   loop 2 invariant[XF] i <= start + steps && (hashFunction <= 2 ==> forall q :: 0 <= q && q < 32 ==> out[q] == spec.chain(hashFunction, spec.sub(pubSeed, 32), arr(old(addr)), spec.sub(old(in), 32), start, i - start)[q])
+//@   loop 2 assert[XF] spec.chainS(hashFunction, spec.sub(pubSeed, 32), arr(old(addr)), spec.sub(old(in), 32), start, i - start + 1) == spec.chain(hashFunction, spec.sub(pubSeed, 32), arr(old(addr)), spec.sub(old(in), 32), start, i - start + 1)
 //@   loop 2 decreases params.w - i
 
 //@ func CalcBaseW
@@ -160,7 +171,6 @@ package xmss
 // (spec/00_core.smt2: fold, randHash, shrn).  The congruence lemmas say randHash depends on its address only through
 // words 0..6 and on its input only through its first 64 bytes; they are proved from the prelude definitions and
 // array extensionality, and randHash's definition is hidden inside validateAuthPath (the lemma is all it needs).
-//@ lemma xmss.L_addrBytes_cong[XF] : forall A1:arr, A2:arr :: (forall k_ :: 0 <= k_ && k_ < 8 ==> A1[k_] == A2[k_]) ==> spec.addrBytes(A1) == spec.addrBytes(A2)
 //@ lemma xmss.L_xorArr_cong[XF] : forall X1:arr, X2:arr, M:arr :: (forall d_ :: 0 <= d_ && d_ < 64 ==> X1[d_] == X2[d_]) ==> spec.xorArr(X1, M, 64) == spec.xorArr(X2, M, 64)
 //@ lemma xmss.L_randHash_cong[XF] uses xmss.L_addrBytes_cong,xmss.L_xorArr_cong : forall hf, PS:arr, A1:arr, A2:arr, X1:arr, X2:arr :: (forall k_ :: 0 <= k_ && k_ < 7 ==> A1[k_] == A2[k_]) && (forall d_ :: 0 <= d_ && d_ < 64 ==> X1[d_] == X2[d_]) ==> spec.randHash(hf, PS, A1, X1) == spec.randHash(hf, PS, A2, X2)
 //@ pred bufIs(buffer, lo, X) := forall q_ :: 0 <= q_ && q_ < 32 ==> buffer[lo+q_] == X[q_]
